@@ -211,16 +211,44 @@ class Simplifier(pysmt.walkers.DagWalker):
             return self.manager.Bool(l == r)
         elif sl == sr:
             return self.manager.TRUE()
-        elif sl.is_constant() and sr.is_constant() and \
-             not sl.array_value_index_type().is_bv_type() and \
-             not sl.array_value_index_type().is_bool_type() and \
-             not sl.array_value_default().get_type().is_array_type():
-            # Two distinct constant array values over an infinite
-            # index sort differ somewhere: their canonical form is
-            # unique when the elements are not arrays themselves
-            return self.manager.FALSE()
+        elif sl.is_constant() and sr.is_constant():
+            # Two distinct constant array values: equality is decided
+            # index by index (extensionally)
+            return self.manager.Bool(self._constants_equal(sl, sr))
         else:
             return self.manager.Equals(sl, sr)
+
+    def _constants_equal(self, l: FNode, r: FNode) -> bool:
+        """Whether two constants of the same sort denote the same value.
+
+        Two array values are equal iff they agree at every index that
+        either of them assigns explicitly and, when some index is left
+        to the default by both, their defaults agree too. The latter
+        is always the case over an infinite index sort; over Bool or
+        BV(w) it is unless the assigned indices cover the whole sort.
+        """
+        if l is r:
+            return True
+        assert l.is_constant() and r.is_constant()
+        if not l.is_array_value():
+            return l.constant_value() == r.constant_value()
+        l_map = l.array_value_assigned_values_map()
+        r_map = r.array_value_assigned_values_map()
+        l_default = l.array_value_default()
+        r_default = r.array_value_default()
+        keys = list(l_map) + [k for k in r_map if k not in l_map]
+        for k in keys:
+            if not self._constants_equal(l_map.get(k, l_default),
+                                         r_map.get(k, r_default)):
+                return False
+        idx_type = l.array_value_index_type()
+        if idx_type.is_bool_type():
+            covered = len(keys) >= 2
+        elif idx_type.is_bv_type():
+            covered = len(keys) >= 2 ** cast(types._BVType, idx_type).width
+        else:
+            covered = False
+        return covered or self._constants_equal(l_default, r_default)
 
     def walk_ite(self, formula: FNode, args: List[FNode], **kwargs) -> FNode:
         assert len(args) == 3
